@@ -1,6 +1,10 @@
 (* C10: what closing does - callbacks exactly once, everything closed, closed for good. *)
-Require Import V.Base.MachineInt V.Generated.GenConsts V.Model.Conductor V.Proofs.ConductorBase V.Proofs.ConductorInv
-               V.Proofs.ConductorProofs.
+Require Import V.Base.MachineInt.
+Require Import V.Generated.GenConsts.
+Require Import V.Model.Conductor.
+Require Import V.Proofs.ConductorBase.
+Require Import V.Proofs.ConductorInv.
+Require Import V.Proofs.ConductorProofs.
 From Coq Require Import ZifyBool.
 Open Scope Z_scope.
 
